@@ -124,8 +124,7 @@ def _program(builders, stop_stmt, common=None, order=None):
     L = ['10 END', '12 REM PADDINGPADDINGPADDING']
     if common:
         L.append('15 COMMON ' + ','.join(common))
-    if 'ob' in b:
-        L.append('20 OPTION BASE 1')
+    L.append('20 OPTION BASE 1' if 'ob' in b else '20 REM')
     if 'dt' in b:
         L.append('25 DEFINT A-C:DEFSTR S')
     n = 30
